@@ -8,7 +8,7 @@ WT=/tmp/wt/confirm.$$
 git -C /repo worktree add -q --detach $WT HEAD || exit 2
 trap 'git -C /repo worktree remove --force '$WT EXIT
 cd $WT
-cp $T $PKG/
+mkdir -p $PKG; cp $T $PKG/
 echo "--- demo on unpatched tree (expect ok)"
 go test -count=1 -vet=off -timeout 300s -run "$RUN" ./$PKG/ 2>&1 | grep -v "lvl=" | tail -3
 if ! git apply $P; then echo "PATCH DOES NOT APPLY"; exit 3; fi
